@@ -24,6 +24,29 @@ impl TokenKind {
                 r matches Some(p) ==> *p == (*old(self))->Number_0 && *final(self) == TokenKind::Number(*final(p)),
                 r is None ==> *final(self) == *old(self),
     { match self { TokenKind::Number(v) => Some(v), _ => None } }
+    // token_kind.rs: `self.as_mut_punctuation()?.as_mut_quote()`, two derive(Is) accessors chained; written out
+    pub fn as_mut_quote(&mut self) -> (r: Option<&mut Quote>)
+        ensures is_q(*old(self)) <==> r.is_some(),
+                r matches Some(p) ==> *old(self) == TokenKind::Punctuation(Punctuation::Quote(*p)) && *final(self) == TokenKind::Punctuation(Punctuation::Quote(*final(p))),
+                r is None ==> *final(self) == *old(self),
+    { match self { TokenKind::Punctuation(Punctuation::Quote(q)) => Some(q), _ => None } }
+}
+pub open spec fn is_q(k: TokenKind) -> bool { k matches TokenKind::Punctuation(Punctuation::Quote(_)) }
+pub open spec fn twin_of(k: TokenKind) -> Option<usize> { match k { TokenKind::Punctuation(Punctuation::Quote(q)) => q.twin_loc, _ => None } }
+// ---- stub for the paste!-generated `iter_quote_indices` of TokenStringExt (token_string_ext.rs:
+// `self.iter().enumerate().filter(|(_, t)| t.kind.is_quote()).map(|(i, _)| i)`) followed by `.collect()`: ASSUMED to
+// yield, in increasing order, exactly the positions of the quote tokens ----
+pub open spec fn quote_index_list(t: Seq<Token>, q: Seq<usize>) -> bool {
+    &&& incr(q)
+    &&& forall|k: int| 0 <= k < q.len() ==> (#[trigger] q[k]) < t.len() && is_q(t[q[k] as int].kind)
+    &&& forall|j: int| 0 <= j < t.len() && is_q((#[trigger] t[j]).kind) ==> q.contains(j as usize)
+}
+pub struct QuoteIndexIter { pub idx: Vec<usize> }
+impl QuoteIndexIter { pub fn collect(self) -> (r: Vec<usize>) ensures r@ == self.idx@ { self.idx } }
+pub trait TokenStringExt { fn iter_quote_indices(&self) -> QuoteIndexIter; }
+impl TokenStringExt for Vec<Token> {
+    #[verifier::external_body]
+    fn iter_quote_indices(&self) -> (r: QuoteIndexIter) ensures quote_index_list(self@, r.idx@) { unimplemented!() }
 }
 '''
 
@@ -616,6 +639,116 @@ DOTTED = dict(
 )
 
 
+# quotes 2p and 2p+1 of the list are paired
+QUOTES_LEMMAS = '''
+// the state of the token list after the first `pairs` pairs (0,1), (2,3), .. of the quote list q have been given their twins
+pub open spec fn qkind(t: usize) -> TokenKind { TokenKind::Punctuation(Punctuation::Quote(Quote { twin_loc: Some(t) })) }
+pub open spec fn quotes_done(orig: Seq<Token>, cur: Seq<Token>, q: Seq<usize>, pairs: int) -> bool {
+    &&& cur.len() == orig.len()
+    &&& forall|j: int| 0 <= j < orig.len() ==> (#[trigger] cur[j]).span == orig[j].span
+    &&& forall|j: int| 0 <= j < orig.len() && !is_q(orig[j].kind) ==> #[trigger] cur[j] == orig[j]
+    &&& forall|k: int| 2 * pairs <= k < q.len() ==> cur[(#[trigger] q[k]) as int] == orig[q[k] as int]
+    &&& forall|p: int| 0 <= p < pairs ==> cur[(#[trigger] q[2 * p]) as int].kind == qkind(q[2 * p + 1])
+    &&& forall|p: int| 0 <= p < pairs ==> cur[(#[trigger] q[2 * p + 1]) as int].kind == qkind(q[2 * p])
+}
+
+pub open spec fn set_twin(c0: Seq<Token>, c1: Seq<Token>, a: usize, b: usize) -> bool {
+    &&& c1.len() == c0.len() && a < c0.len()
+    &&& c1[a as int].span == c0[a as int].span && c1[a as int].kind == qkind(b)
+    &&& forall|j: int| 0 <= j < c0.len() && j != a ==> #[trigger] c1[j] == c0[j]
+}
+pub proof fn lemma_match_quotes_step1(c0: Seq<Token>, c1: Seq<Token>, a: usize, b: usize)
+    requires c1.len() == c0.len(), a < c0.len(), is_q(c0[a as int].kind),
+             c1[a as int].span == c0[a as int].span,
+             c1[a as int].kind == qkind(b),
+             forall|j: int| 0 <= j < c0.len() && j != a ==> #[trigger] c1[j] == c0[j],
+    ensures set_twin(c0, c1, a, b),
+{}
+pub proof fn lemma_match_quotes_pair(orig: Seq<Token>, q: Seq<usize>, c0: Seq<Token>, c1: Seq<Token>, c2: Seq<Token>, i: int)
+    requires quote_index_list(orig, q), quotes_done(orig, c0, q, i), 0 <= i, 2 * i + 1 < q.len(),
+             set_twin(c0, c1, q[2 * i], q[2 * i + 1]), set_twin(c1, c2, q[2 * i + 1], q[2 * i]),
+    ensures quotes_done(orig, c2, q, i + 1),
+{
+    let a = q[2 * i]; let b = q[2 * i + 1];
+    assert(a < b);
+    assert forall|k: int| 2 * (i + 1) <= k < q.len() implies c2[(#[trigger] q[k]) as int] == orig[q[k] as int] by { assert(a < q[k] && b < q[k]); }
+    assert forall|p: int| 0 <= p < i + 1 implies c2[(#[trigger] q[2 * p]) as int].kind == qkind(q[2 * p + 1]) by {
+        if p < i { assert(q[2 * p] < a); assert(q[2 * p] < b); }
+    }
+    assert forall|p: int| 0 <= p < i + 1 implies c2[(#[trigger] q[2 * p + 1]) as int].kind == qkind(q[2 * p]) by {
+        if p < i { assert(q[2 * p + 1] < a); assert(q[2 * p + 1] < b); }
+    }
+    assert forall|j: int| 0 <= j < orig.len() && !is_q(orig[j].kind) implies #[trigger] c2[j] == orig[j] by { assert(c0[j] == orig[j]); }
+    assert forall|j: int| 0 <= j < orig.len() implies (#[trigger] c2[j]).span == orig[j].span by { assert(c0[j].span == orig[j].span); assert(c1[j].span == c0[j].span); }
+}
+pub proof fn lemma_match_quotes_final(orig: Seq<Token>, q: Seq<usize>, cur: Seq<Token>)
+    requires quote_index_list(orig, q), quotes_done(orig, cur, q, (q.len() / 2) as int), orig.len() <= usize::MAX,
+             forall|j: int| 0 <= j < orig.len() && is_q(orig[j].kind) ==> twin_of(orig[j].kind) is None,
+    ensures
+        forall|j: int| 0 <= j < orig.len() ==> is_q((#[trigger] cur[j]).kind) == is_q(orig[j].kind),
+        forall|j: int| 0 <= j < cur.len() && twin_of((#[trigger] cur[j]).kind) is Some ==> ({ let t = twin_of(cur[j].kind).unwrap();
+            t < cur.len() && t != j && is_q(cur[t as int].kind) && twin_of(cur[t as int].kind) == Some(j as usize) }),
+{
+    let pairs = (q.len() / 2) as int;
+    assert forall|j: int| 0 <= j < orig.len() implies is_q((#[trigger] cur[j]).kind) == is_q(orig[j].kind) by {
+        if is_q(orig[j].kind) {
+            let k = lemma_quote_of(orig, q, j);
+            if k < 2 * pairs { let p = k / 2; if k == 2 * p { assert(cur[q[2 * p] as int].kind == qkind(q[2 * p + 1])); } else { assert(k == 2 * p + 1); assert(cur[q[2 * p + 1] as int].kind == qkind(q[2 * p])); } }
+            else { assert(cur[q[k] as int] == orig[q[k] as int]); }
+        } else { assert(cur[j] == orig[j]); }
+    }
+    assert forall|j: int| 0 <= j < cur.len() && twin_of((#[trigger] cur[j]).kind) is Some implies ({ let t = twin_of(cur[j].kind).unwrap();
+            t < cur.len() && t != j && is_q(cur[t as int].kind) && twin_of(cur[t as int].kind) == Some(j as usize) }) by {
+        if !is_q(orig[j].kind) { assert(cur[j] == orig[j]); }
+        else {
+            let k = lemma_quote_of(orig, q, j);
+            if k < 2 * pairs {
+                let p = k / 2;
+                assert(q[2 * p] < q[2 * p + 1]);
+                if k == 2 * p { assert(cur[q[2 * p] as int].kind == qkind(q[2 * p + 1])); assert(cur[q[2 * p + 1] as int].kind == qkind(q[2 * p])); }
+                else { assert(k == 2 * p + 1); assert(cur[q[2 * p + 1] as int].kind == qkind(q[2 * p])); assert(cur[q[2 * p] as int].kind == qkind(q[2 * p + 1])); }
+            } else {
+                assert(cur[q[k] as int] == orig[q[k] as int]);
+            }
+        }
+    }
+}
+
+pub proof fn lemma_quote_of(t: Seq<Token>, q: Seq<usize>, j: int) -> (k: int)
+    requires quote_index_list(t, q), 0 <= j < t.len(), is_q(t[j].kind), t.len() <= usize::MAX,
+    ensures 0 <= k < q.len(), q[k] == j,
+{
+    assert(q.contains(j as usize));
+    choose|k: int| 0 <= k < q.len() && q[k] == j as usize
+}
+'''
+
+MATCH_QUOTES = dict(
+    props=['C01', 'C02'],
+    # the lexers create quote tokens without a twin (lex_quote: `twin_loc: None`); an odd quote out keeps that
+    requires=['forall|j: int| 0 <= j < old(self).tokens@.len() && is_q(old(self).tokens@[j].kind) ==> twin_of(old(self).tokens@[j].kind) is None'],
+    ensures=['final(self).source@ == old(self).source@', 'final(self).tokens@.len() == old(self).tokens@.len()',
+             # only twin positions change: spans and every non-quote token stay, quotes stay quotes
+             'forall|j: int| 0 <= j < old(self).tokens@.len() ==> (#[trigger] final(self).tokens@[j]).span == old(self).tokens@[j].span',
+             'forall|j: int| 0 <= j < old(self).tokens@.len() && !is_q(old(self).tokens@[j].kind) ==> #[trigger] final(self).tokens@[j] == old(self).tokens@[j]',
+             'forall|j: int| 0 <= j < old(self).tokens@.len() ==> is_q((#[trigger] final(self).tokens@[j]).kind) == is_q(old(self).tokens@[j].kind)',
+             # C02: "quote tokens point at existing twin quotes" -- another token, a quote, that points back
+             'forall|j: int| 0 <= j < final(self).tokens@.len() && twin_of((#[trigger] final(self).tokens@[j]).kind) is Some ==> ({ let t = twin_of(final(self).tokens@[j].kind).unwrap(); '
+             't < final(self).tokens@.len() && t != j && is_q(final(self).tokens@[t as int].kind) && twin_of(final(self).tokens@[t as int].kind) == Some(j as usize) })'],
+    proofs=[dict(before='for i in', kind='ghost', text='let ghost orig = self.tokens@;'),
+            dict(before='for i in', kind='ghost', text='let ghost q = quote_indices@;'),
+            dict(before='let a_i', text='assert(q[i * 2] < q[i * 2 + 1]);'),
+            dict(before='let a_i', kind='ghost', text='let ghost cur0 = self.tokens@;'),
+            dict(after='let b_i', text='assert(cur0[a_i as int] == orig[a_i as int]); assert(cur0[b_i as int] == orig[b_i as int]);'),
+            dict(after='a.twin_loc', after_block=True, text='lemma_match_quotes_step1(cur0, self.tokens@, a_i, b_i);'),
+            dict(after='a.twin_loc', after_block=True, kind='ghost', text='let ghost cur1 = self.tokens@;'),
+            dict(at='body_end', text='assert(self.tokens@.len() <= usize::MAX) by { broadcast use vstd::std_specs::vec::axiom_spec_len; let _l = self.tokens.len(); } lemma_match_quotes_final(orig, q, self.tokens@);')],
+    loops={1: dict(invariant=['self.source@ == old(self).source@', 'q == quote_indices@', 'quote_index_list(orig, q)', 'orig == old(self).tokens@',
+                              'quotes_done(orig, self.tokens@, q, i as int)'],
+                   end_proof='lemma_match_quotes_step1(cur1, self.tokens@, b_i, a_i); lemma_match_quotes_pair(orig, q, cur0, cur1, self.tokens@, i as int);')},
+)
+
+
 def build(repo):
     U = Unit(NAME, repo)
     U.header = common.HEADER
@@ -644,6 +777,7 @@ def build(repo):
     U.raw(TILES_LEMMAS, name='lemmas:tiles', props=['C02'])
     U.raw(NEWLINES_LEMMAS, name='lemmas:condense-newlines', props=['C02'])
     U.raw(NUMSUF_LEMMAS, name='lemmas:number-suffixes', props=['C02', 'C17'])
+    U.raw(QUOTES_LEMMAS, name='lemmas:match-quotes', props=['C02'])
     U.impl(D, 'impl Document', {
         'newlines_to_breaks': dict(
             props=['C01', 'C02'],
@@ -659,6 +793,7 @@ def build(repo):
                 'forall|j: int| 0 <= j < __i ==> (#[trigger] self.tokens@[j]).kind == old(self).tokens@[j].kind || (self.tokens@[j].kind is ParagraphBreak && old(self).tokens@[j].kind is Newline)',
             ], decreases='self.tokens@.len() - __i')},
         ),
+        'match_quotes': MATCH_QUOTES,
         'condense_newlines': NEWLINES,
         'condense_spaces': SPACES,
         'condense_dotted_initialisms': DOTTED,
